@@ -283,6 +283,8 @@ class Client(BaseComponent):
 
     @handler('write')
     def write(self, data):
+        if self._sock.fileno() < 0:
+            return  # late write after the disconnect: the socket is closed, keep no state for it
         if not self._poller.isWriting(self._sock):
             self._poller.addWriter(self, self._sock)
         self._buffer.append(data)
